@@ -24,8 +24,10 @@ META = {
             "the recorded real traces (return values + header table after every operation) are validated by TLC "
             "against ShmAllocTrace and judged clause by clause with ShmTable!Conforms. Random long traces on a 1 MiB "
             "region and the shipped 4094-entry limit are validated the same way. Second clause: ShmWrite.tla "
-            "enumerates schema-shape x rows x placement classes; batches are written with allocate_and_write between "
-            "live neighbours / canaries and TLC judges bytes_written <= allocation and neighbours intact.",
+            "enumerates schema-shape x rows x placement classes (single writes between live neighbours / canaries) and "
+            "write sequences (2-3 consecutive writes on one segment whose schemas are equal up to metadata, or whose nested "
+            "dictionary grows, in the orders up/down/up_down/down_up/same); TLC judges for every write bytes_written <= "
+            "allocation, all earlier live batches intact, nothing outside the allocation touched.",
     "note": "Trusted: the independent header reader (documented layout), canary/snapshot comparison, the projection "
             "of byte offsets to data-region-relative offsets. The size *estimate* itself is Arrow arithmetic that the "
             "model does not reproduce; it is observed per shape class (sampled sizes inside each class).",
@@ -415,7 +417,7 @@ def build_batch(shape: str, rows: str, rng) -> pa.RecordBatch:
 def run_writes(ctx: Ctx) -> None:
     S = _shm()
     H = S.HEADER_SIZE
-    cases = table.enumerate_cases(ctx, "data", "ShmWrite", invariants=["WellFormed"])
+    cases = table.enumerate_cases(ctx, "data", "ShmWrite", invariants=["WellFormed", "SeqSteps"])
     nvar = 1 if ctx.quick else 3
     seg_bytes = 3 * 512 * 1024
     seg = S.ShmSegment.create(H + seg_bytes)
@@ -426,6 +428,10 @@ def run_writes(ctx: Ctx) -> None:
     try:
         for cj in cases:
             c = cj["case"]
+            if c["kind"] == "seq":
+                for v in range(nvar):
+                    run_sequence(ctx, seg, size, c, cj["exp"], v, nb_a, obs)
+                continue
             for v in range(nvar):
                 batch = build_batch(c["shape"], c["rows"], ctx.rng)
                 # what the implementation requests for this batch (dry run on the empty segment)
@@ -507,13 +513,107 @@ def run_writes(ctx: Ctx) -> None:
     for idx, clauses in bad:
         o = obs[idx]
         for cl in clauses:
-            ctx.violation(cl, {"shape": o["case"]["shape"], "rows": o["case"]["rows"], "place": o["case"]["place"],
-                               "path": o["_c"]["path"]},
+            ctx.violation(cl, {"shape": ("seq:" if o["case"]["kind"] == "seq" else "") + o["case"]["shape"], "rows": o["case"]["rows"],
+                               "place": o["case"]["place"], "path": o["_c"]["path"],
+                               **({"pattern": o["case"]["pattern"], "step": o["_c"].get("step")} if o["case"]["kind"] == "seq" else {})},
                           {"observed": o["obs"], "concrete": o["_c"]})
         over[o["case"]["shape"]] = over.get(o["case"]["shape"], 0) + 1
     ctx.extra["write_cases"] = {"abstract": len(cases), "executed": len(obs),
                                 "results": {k: sum(1 for o in obs if o["_c"]["result"].startswith(k)) for k in ("written", "nofit", "raised")},
                                 "shapes_with_false_clause": over}
+
+
+def build_seq_batch(family: str, rows: str, level: str, rng, step: int) -> pa.RecordBatch:
+    """Batches of one family have the same fields; only the varying part (metadata size, dictionary size, rows)
+    follows the level.  pa.Schema.equals (check_metadata=False) is TRUE between any two of them."""
+    nrows = {"zero": 0, "one": 1, "many": rng.choice([50, 257, 1000])}[rows]
+    big = level == "L"
+    ids = pa.array([step * 100000 + i for i in range(nrows)], pa.int64())
+    names = pa.array([f"row-{step}-{i}" for i in range(nrows)], pa.string())
+
+    def md(prefix: bytes, lo: int, hi: int):
+        return {b"doc": prefix * (rng.randint(lo, hi) if big else rng.randint(0, 8))} if (big or rng.random() < 0.5) else None
+
+    if family in ("schema_meta", "field_meta", "both_meta"):
+        fm = family in ("field_meta", "both_meta")
+        sm = family in ("schema_meta", "both_meta")
+        fields = [pa.field("id", pa.int64(), metadata=md(b"i", 2500, 9000) if fm else None),
+                  pa.field("name", pa.string(), metadata=md(b"n", 2500, 9000) if fm else None)]
+        return pa.RecordBatch.from_arrays([ids, names], schema=pa.schema(fields, metadata=md(b"s", 6000, 40000) if sm else None))
+    if family == "nested_dict":
+        words = ["word-%06d" % i for i in range(rng.randint(1500, 4000) if big else 3)]
+        t = pa.list_(pa.dictionary(pa.int16(), pa.string()))
+        n = max(nrows, 1)       # the dictionary travels with the batch, so at least one row carries it
+        vals = [[words[(i + j) % len(words)] for j in range(len(words) if i == 0 else 2)] for i in range(n)]
+        return pa.RecordBatch.from_arrays([pa.array(vals, t), pa.array([step * 1000 + i for i in range(n)], pa.int64())], names=["ld", "i"])
+    if family == "top_dict":
+        words = ["w%05d" % i for i in range(rng.randint(1500, 4000) if big else 3)]
+        n = max(nrows, 1) if not big else max(nrows, len(words))
+        d = pa.array([words[i % len(words)] for i in range(n)], pa.string()).dictionary_encode()
+        return pa.RecordBatch.from_arrays([d, pa.array(list(range(n)), pa.int64())], names=["d", "i"])
+    if family == "rows_only":
+        n = (nrows if not big else nrows * 20 + 500)
+        return pa.RecordBatch.from_arrays([pa.array(list(range(n)), pa.int64()), pa.array([f"r{i}" for i in range(n)], pa.string())],
+                                          names=["id", "name"])
+    raise MachineryError(f"unknown sequence family {family}")
+
+
+def run_sequence(ctx: Ctx, seg, size: int, c: dict, levels: list, v: int, nb_a: pa.RecordBatch, obs: list) -> None:
+    """2-3 consecutive allocate_and_write calls on the same segment object (no reset in between); one observation per
+    write.  'left' = every batch written earlier (the live neighbour first), checked by bytes and by decoding."""
+    S = _shm()
+    H = S.HEADER_SIZE
+    seg.reset()
+    buf = seg.buf
+    buf[H:size] = b"\xa5" * (size - H)
+    ra = seg.allocate_and_write(nb_a)
+    if ra is None:
+        raise MachineryError("neighbour batch does not fit")
+    live = [(ra[0], header_table(buf, H)[0]["len"], nb_a)]     # (abs offset, allocation length, original batch)
+    for step, level in enumerate(levels, start=1):
+        batch = build_seq_batch(c["shape"], c["rows"], level, ctx.rng, step)
+        before = bytes(buf[H:size])
+        known = {(e["off"], e["len"]) for e in header_table(buf, H)}
+        try:
+            res = seg.allocate_and_write(batch)
+            result = "nofit" if res is None else "written"
+        except Exception as e:  # noqa: BLE001
+            res, result = None, "raised:" + type(e).__name__
+        after = bytes(buf[H:size])
+        tbl = header_table(buf, H)
+        new = [e for e in tbl if (e["off"], e["len"]) not in known]
+        if res is not None:
+            ent = [e for e in tbl if e["off"] == res[0] - H]
+            alloc_len = ent[0]["len"] if ent else 0
+            lo, hi, written = res[0] - H, res[0] - H + alloc_len, res[1]
+        else:
+            alloc_len, written = (new[0]["len"] if new else 0), 0
+            lo, hi = (new[0]["off"], new[0]["off"] + new[0]["len"]) if new else (0, 0)
+        outside_ok = before[:lo] == after[:lo] and before[hi:] == after[hi:]
+        left_ok = True
+        for off, ln, orig in live:
+            o_, n_ = off - H, ln
+            if before[o_:o_ + n_] != after[o_:o_ + n_]:
+                left_ok = False
+                break
+            try:
+                if not S._deserialize_from_shm(pa.py_buffer(after[o_:o_ + n_]), orig.schema).equals(orig):
+                    left_ok = False
+                    break
+            except Exception:  # noqa: BLE001
+                left_ok = False
+                break
+        o = {"result": result.split(":")[0], "alloc_len": alloc_len, "written": written, "left_ok": left_ok, "right_ok": True,
+             "outside_ok": outside_ok}
+        w = _wobs(c, o, batch, v, result)
+        w["_c"].update({"step": step, "level": level, "levels": levels})
+        obs.append(w)
+        ctx.case([c, v, step, batch.schema.to_string(show_schema_metadata=False)[:120], batch.schema.serialize().size, batch.num_rows])
+        if res is not None:
+            # later steps check this batch over the extent it really occupies (its written bytes), so a batch that
+            # overran and is then overwritten by the next allocation is seen as damaged
+            live.append((res[0], max(alloc_len, written), batch))
+    buf = None
 
 
 def _wobs(c, o, batch, v, result):
